@@ -149,8 +149,15 @@ func main() {
 	}
 	var v8pick sync.Mutex
 	v8next := 0
+	only := os.Getenv("VERIF_ONLY") // development aid: restrict to units whose name has this prefix
+	if only != "" {
+		r.Cap("VERIF_ONLY=" + only)
+	}
 	mc.ParallelFor(len(units), func(i int) {
 		u := units[i]
+		if only != "" && !strings.HasPrefix(u.Name, only) {
+			return
+		}
 		wasm, err := watexec.Assemble(u)
 		if err != nil {
 			addCand(cand{i * 1000000, "unit-not-assembled|" + u.Family + "|" + clip(err.Error(), 60), fmt.Sprintf("%s: the assembler rejects the unit: %v", u.Name, err), map[string]interface{}{"unit": u.Name, "wat": clip(u.Text, 4000)}})
@@ -178,7 +185,7 @@ func main() {
 	}
 	var jobs []jd
 	for i := range units {
-		if wasms[i] == nil {
+		if wasms[i] == nil || v8out[i] == nil {
 			continue
 		}
 		for _, c := range configs {
